@@ -3,7 +3,7 @@ package comp
 // C02 — correspondence of the update-engine model (Spine.updateList / updateStore, lean/Spine/Update.lean)
 // with the real per-type UpdateList methods, spine.FunctionData, FeatureLocal.UpdateData and reply / notify
 // datagrams, for EVERY list type that implements model.Updater; plus the SPEC monitor of the property
-// (specKV below: data as a map identifier -> item, the cmdOption rules as overlay / restrict / erase),
+// (updSpecKV below: data as a map identifier -> item, the cmdOption rules as overlay / restrict / erase),
 // which never consults the model.
 //
 // Ops (also the replay format):
@@ -364,9 +364,9 @@ func (c *updCodec) filter(s *h.UpdShape, del bool, f updFilter) *model.FilterTyp
 // and the result has one item per identifier, is ordered by the numeric identifier, and applying the same
 // update again changes nothing.  undecided() names the inputs the SPEC does not judge.
 
-type specKV struct{ s *h.UpdShape }
+type updSpecKV struct{ s *h.UpdShape }
 
-func (k specKV) key(it updItem) (string, bool) {
+func (k updSpecKV) key(it updItem) (string, bool) {
 	var p []string
 	complete := true
 	for _, kk := range k.s.Keys {
@@ -380,7 +380,7 @@ func (k specKV) key(it updItem) (string, bool) {
 	return strings.Join(p, "|"), complete
 }
 
-func (k specKV) keyless(it updItem) bool {
+func (k updSpecKV) keyless(it updItem) bool {
 	for _, kk := range k.s.Keys {
 		if it[kk.Idx] >= 0 {
 			return false
@@ -389,7 +389,7 @@ func (k specKV) keyless(it updItem) bool {
 	return true
 }
 
-func (k specKV) wellFormedData(l updList) bool {
+func (k updSpecKV) wellFormedData(l updList) bool {
 	seen := map[string]bool{}
 	for _, it := range l {
 		if len(it) != k.s.N {
@@ -405,14 +405,14 @@ func (k specKV) wellFormedData(l updList) bool {
 }
 
 // selector field j names item field i (or nothing)
-func (k specKV) selField(j int) int {
+func (k updSpecKV) selField(j int) int {
 	if j < len(k.s.SelMap) && k.s.SelMap[j] >= 0 {
 		return k.s.SelMap[j]
 	}
 	return -1
 }
 
-func (k specKV) selDefined(sel, it updItem) bool {
+func (k updSpecKV) selDefined(sel, it updItem) bool {
 	for j, v := range sel {
 		if i := k.selField(j); v >= 0 && i >= 0 && (i >= len(it) || it[i] < 0) {
 			return false
@@ -421,7 +421,7 @@ func (k specKV) selDefined(sel, it updItem) bool {
 	return true
 }
 
-func (k specKV) matches(sel, it updItem) bool {
+func (k updSpecKV) matches(sel, it updItem) bool {
 	for j, v := range sel {
 		if i := k.selField(j); v >= 0 && i >= 0 && (i >= len(it) || it[i] != v) {
 			return false
@@ -430,7 +430,7 @@ func (k specKV) matches(sel, it updItem) bool {
 	return true
 }
 
-func (k specKV) namedFields(el updItem) map[int]bool {
+func (k updSpecKV) namedFields(el updItem) map[int]bool {
 	m := map[int]bool{}
 	for j, v := range el {
 		if v >= 0 && j < len(k.s.ElMap) && k.s.ElMap[j] >= 0 {
@@ -440,7 +440,7 @@ func (k specKV) namedFields(el updItem) map[int]bool {
 	return m
 }
 
-func specOverlay(u, old updItem) updItem {
+func updSpecOverlay(u, old updItem) updItem {
 	o := append(updItem{}, old...)
 	for i := range o {
 		if i < len(u) && u[i] >= 0 {
@@ -450,7 +450,7 @@ func specOverlay(u, old updItem) updItem {
 	return o
 }
 
-func (k specKV) clear(el, it updItem) updItem {
+func (k updSpecKV) clear(el, it updItem) updItem {
 	o := append(updItem{}, it...)
 	for i := range k.namedFields(el) {
 		if i < len(o) {
@@ -460,7 +460,7 @@ func (k specKV) clear(el, it updItem) updItem {
 	return o
 }
 
-func (k specKV) afterDelete(old updList, fd updFilter) updList {
+func (k updSpecKV) afterDelete(old updList, fd updFilter) updList {
 	if fd.kind != 'F' || (fd.sel == nil && fd.el == nil) {
 		return old
 	}
@@ -479,7 +479,7 @@ func (k specKV) afterDelete(old updList, fd updFilter) updList {
 }
 
 // undecided returns why the SPEC does not judge this input ("" = it does).
-func (k specKV) undecided(old, items updList, fp, fd updFilter) string {
+func (k updSpecKV) undecided(old, items updList, fp, fd updFilter) string {
 	if len(k.s.Keys) == 0 {
 		return "type-without-identifiers"
 	}
@@ -553,7 +553,7 @@ func (k specKV) undecided(old, items updList, fp, fd updFilter) string {
 }
 
 // apply: the fold step of the cmdOption rules, as a map identifier -> item
-func (k specKV) apply(old, items updList, fp, fd updFilter) map[string]updItem {
+func (k updSpecKV) apply(old, items updList, fp, fd updFilter) map[string]updItem {
 	cur := k.afterDelete(old, fd)
 	m := map[string]updItem{}
 	for _, it := range cur {
@@ -564,19 +564,19 @@ func (k specKV) apply(old, items updList, fp, fd updFilter) map[string]updItem {
 	case fp.kind == 'F' && fp.sel != nil:
 		for key, it := range m {
 			if k.matches(fp.sel, it) {
-				m[key] = specOverlay(items[0], it)
+				m[key] = updSpecOverlay(items[0], it)
 			}
 		}
 	case len(items) == 0:
 	case k.keyless(items[0]):
 		for key, it := range m {
-			m[key] = specOverlay(items[0], it)
+			m[key] = updSpecOverlay(items[0], it)
 		}
 	default:
 		for _, u := range items {
 			key, _ := k.key(u)
 			if it, ok := m[key]; ok {
-				m[key] = specOverlay(u, it)
+				m[key] = updSpecOverlay(u, it)
 			} else {
 				m[key] = u
 			}
@@ -586,7 +586,7 @@ func (k specKV) apply(old, items updList, fp, fd updFilter) map[string]updItem {
 }
 
 // numeric identifier order: lexicographic on the leading key fields of kind uint
-func (k specKV) numLess(a, b updItem) bool {
+func (k updSpecKV) numLess(a, b updItem) bool {
 	for _, kk := range k.s.Keys {
 		if kk.Kind != "uint" || a[kk.Idx] < 0 || b[kk.Idx] < 0 {
 			return false
@@ -598,7 +598,7 @@ func (k specKV) numLess(a, b updItem) bool {
 	return false
 }
 
-func (k specKV) ordered(l updList) bool {
+func (k updSpecKV) ordered(l updList) bool {
 	for i := range l {
 		for j := i + 1; j < len(l); j++ {
 			if k.numLess(l[j], l[i]) {
@@ -609,7 +609,7 @@ func (k specKV) ordered(l updList) bool {
 	return true
 }
 
-func (k specKV) mapS(m map[string]updItem) string {
+func (k updSpecKV) mapS(m map[string]updItem) string {
 	var keys []string
 	for key := range m {
 		keys = append(keys, key)
@@ -625,7 +625,7 @@ func (k specKV) mapS(m map[string]updItem) string {
 	return strings.Join(p, ";")
 }
 
-func (k specKV) listAsMapS(l updList) (string, bool) {
+func (k updSpecKV) listAsMapS(l updList) (string, bool) {
 	m := map[string]updItem{}
 	for _, it := range l {
 		key, c := k.key(it)
@@ -710,7 +710,7 @@ func updShapeName(fp, fd updFilter, items updList) string {
 	return "none"
 }
 
-func kvArgs(f []string) map[string]string {
+func updArgs(f []string) map[string]string {
 	m := map[string]string{}
 	for _, t := range f {
 		if i := strings.IndexByte(t, '='); i > 0 {
@@ -720,15 +720,15 @@ func kvArgs(f []string) map[string]string {
 	return m
 }
 
-// sortedItems: canonical multiset form of a list text
-func sortedItems(s string) string {
+// updSortedItems: canonical multiset form of a list text
+func updSortedItems(s string) string {
 	p := strings.Split(s, ";")
 	sort.Strings(p)
 	return strings.Join(p, ";")
 }
 
-// obsFields splits an observation line ("ok=1 out=… store=…" or "panic <site>") into named fields
-func obsFields(line string) map[string]string {
+// updObsFields splits an observation line ("ok=1 out=… store=…" or "panic <site>") into named fields
+func updObsFields(line string) map[string]string {
 	m := map[string]string{}
 	if strings.HasPrefix(line, "panic") {
 		m["panic"] = "1"
@@ -742,9 +742,9 @@ func obsFields(line string) map[string]string {
 	return m
 }
 
-// sameObs compares the named fields of two observations; lists of more than 12 items as multisets
+// updSameObs compares the named fields of two observations; lists of more than 12 items as multisets
 // (Go's sort is not stable beyond 12 elements)
-func sameObs(impl, want map[string]string, keys []string) bool {
+func updSameObs(impl, want map[string]string, keys []string) bool {
 	if (impl["panic"] != "") != (want["panic"] != "") {
 		return false
 	}
@@ -756,7 +756,7 @@ func sameObs(impl, want map[string]string, keys []string) bool {
 		if a == b {
 			continue
 		}
-		if strings.Count(a, ";") >= 12 && sortedItems(a) == sortedItems(b) {
+		if strings.Count(a, ";") >= 12 && updSortedItems(a) == updSortedItems(b) {
 			continue
 		}
 		return false
@@ -764,7 +764,7 @@ func sameObs(impl, want map[string]string, keys []string) bool {
 	return true
 }
 
-func obsS(m map[string]string, keys []string) string {
+func updObsS(m map[string]string, keys []string) string {
 	if m["panic"] != "" {
 		return "panic"
 	}
@@ -778,9 +778,9 @@ func obsS(m map[string]string, keys []string) string {
 // judge: the SPEC monitor on one local, persisting update. `after` is what the API returns afterwards,
 // reapply performs the same update again on the real store and returns the data afterwards.
 func (w *updWorld) judge(done []string, shape string, old, items updList, fp, fd updFilter, after updList, fast bool, reapply func() (updList, bool)) {
-	k := specKV{w.s}
+	k := updSpecKV{w.s}
 	why := k.undecided(old, items, fp, fd)
-	w.stats["spec:"+firstNonEmpty(why, "decided")]++
+	w.stats["spec:"+updFirstNonEmpty(why, "decided")]++
 	if why != "" {
 		if why == "update-items-not-well-formed" && !fast {
 			// observation (i) of DESIGN §8 C02: duplicates inside one update end up in the store
@@ -852,7 +852,7 @@ func (w *updWorld) judge(done []string, shape string, old, items updList, fp, fd
 	}
 }
 
-func firstNonEmpty(a, b string) string {
+func updFirstNonEmpty(a, b string) string {
 	if a != "" {
 		return a
 	}
@@ -861,7 +861,7 @@ func firstNonEmpty(a, b string) string {
 
 // twin: the Lean SPEC (`kv` op) must decide and compute what the Go monitor does
 func (w *updWorld) twin(done []string, old, items updList, fp, fd updFilter) {
-	k := specKV{w.s}
+	k := updSpecKV{w.s}
 	line := fmt.Sprintf("kv old=%s new=%s fp=%s fd=%s", updListS(old), updListS(items), updFilterS(fp), updFilterS(fd))
 	lean := w.ask(w.s, line)
 	var mine string
@@ -875,7 +875,7 @@ func (w *updWorld) twin(done []string, old, items updList, fp, fd updFilter) {
 	}
 	if strings.HasPrefix(lean, "kv ") && strings.HasPrefix(mine, "kv ") {
 		// the Lean side prints in identifier order of the values, the Go side in the order of the key text
-		if sortedItems(strings.TrimPrefix(lean, "kv ")) == sortedItems(strings.TrimPrefix(mine, "kv ")) {
+		if updSortedItems(strings.TrimPrefix(lean, "kv ")) == updSortedItems(strings.TrimPrefix(mine, "kv ")) {
 			return
 		}
 	}
@@ -890,7 +890,7 @@ func (w *updWorld) runCase(op string, done []string) bool {
 		panic("unknown or unsupported list type in " + op)
 	}
 	w.s = s
-	a := kvArgs(f[3:])
+	a := updArgs(f[3:])
 	remote, persist := a["r"] == "1", a["p"] == "1"
 	old, items := updParseList(a["old"]), updParseList(a["new"])
 	fp, fd := updParseFilter(a["fp"]), updParseFilter(a["fd"])
@@ -940,14 +940,14 @@ func (w *updWorld) runCase(op string, done []string) bool {
 	if strings.HasPrefix(want, "panic") {
 		w.stats["model-panic:"+strings.TrimPrefix(want, "panic ")]++
 	}
-	if !sameObs(impl, obsFields(want), keys) {
-		w.r.Mismatch(done, obsS(impl, keys), want, "per-type UpdateList of "+s.Name+" vs Spine.updateList")
-		return false
+	agree := updSameObs(impl, updObsFields(want), keys)
+	if !agree {
+		w.r.Mismatch(done, updObsS(impl, keys), want, "per-type UpdateList of "+s.Name+" vs Spine.updateList")
 	}
 	if pan != nil {
-		return true
+		return agree
 	}
-	// ---- SPEC monitor (never looks at `want`)
+	// ---- SPEC monitor (never looks at `want`; runs whether or not the model agreed)
 	if !retOK {
 		if _, isBool := ret.(bool); isBool {
 			w.r.SpecFail("C02/updatelist-returns-persist-flag:"+s.Name, done, fmt.Sprintf("(*%s).UpdateList returned %v (%T) as the merged data instead of the list", s.Name, ret, ret))
@@ -976,7 +976,7 @@ func (w *updWorld) runCase(op string, done []string) bool {
 			return c2.decSlice(store.Elem().FieldByName(s.ListField)), true
 		})
 	}
-	return true
+	return agree
 }
 
 // ---- histories through FunctionData, the local API and datagrams
@@ -1136,7 +1136,7 @@ func (w *updWorld) histApply(remote, persist bool, items updList, fp, fd updFilt
 
 func (w *updWorld) runStep(op string, done []string) bool {
 	f := strings.Fields(op)
-	a := kvArgs(f[1:])
+	a := updArgs(f[1:])
 	s := w.s
 	remote, persist := a["r"] == "1", a["p"] == "1"
 	if w.path != "fd" {
@@ -1188,9 +1188,9 @@ func (w *updWorld) runStep(op string, done []string) bool {
 	if strings.HasPrefix(want, "panic") {
 		w.stats["model-panic:"+strings.TrimPrefix(want, "panic ")]++
 	}
-	if !sameObs(impl, obsFields(want), keys) {
-		w.r.Mismatch(done, obsS(impl, keys), want, fmt.Sprintf("%s path of %s vs Spine.updateStore (old=%s)", w.path, s.Name, updListS(old)))
-		return false
+	agree := updSameObs(impl, updObsFields(want), keys)
+	if !agree {
+		w.r.Mismatch(done, updObsS(impl, keys), want, fmt.Sprintf("%s path of %s vs Spine.updateStore (old=%s)", w.path, s.Name, updListS(old)))
 	}
 	if pan != nil {
 		return false // the store may be half-written; end this history
@@ -1213,7 +1213,7 @@ func (w *updWorld) runStep(op string, done []string) bool {
 			return w.histRead(), true
 		})
 	}
-	return true
+	return agree // a disagreement ends this history (after the monitor has judged the step)
 }
 
 // runUpdOps executes an op list; returns false when a mismatch ended it
@@ -1562,7 +1562,7 @@ func (g updGen) caseOp(shape string) string {
 func (g updGen) history(path string, n int) []string {
 	ops := []string{fmt.Sprintf("hist %s %s", g.s.Name, path)}
 	known := updList{}
-	k := specKV{g.s}
+	k := updSpecKV{g.s}
 	for i := 0; i < n; i++ {
 		wellFormed := g.rng.Intn(10) < 8
 		shape := updShapesAll[g.rng.Intn(len(updShapesAll))]
@@ -1599,6 +1599,175 @@ func (g updGen) history(path string, n int) []string {
 		}
 	}
 	return ops
+}
+
+// ---- bounded exhaustive enumeration (thorough tier): every (stored, update) pair of lists of length <= 2 over a
+// small item universe (identifier values incl. absent, one payload field present/absent, write flag), under
+// every filter variant the shape offers; capped per type by a fixed stride so that the tier stays in budget.
+
+func updEnumerate(s *h.UpdShape, fullUpTo, maxCases int) (ops []string, total int) {
+	isKey := map[int]bool{}
+	for _, k := range s.Keys {
+		isKey[k.Idx] = true
+	}
+	payload := -1
+	for i := 0; i < s.N; i++ {
+		if !isKey[i] && i != s.Flag && s.ItemT.Field(i).Type.Elem().Size() > 0 {
+			payload = i
+			break
+		}
+	}
+	// key tuples: first key in {-,0,1,2} for single-key types, {-,0,1} x {0,1}... for multi-key types
+	tuples := [][]int{{}}
+	for j := range s.Keys {
+		vals := []int{-1, 0, 1, 2}
+		if len(s.Keys) > 1 {
+			vals = []int{-1, 0, 1}
+			if j > 0 {
+				vals = []int{0, 1}
+			}
+		}
+		var nt [][]int
+		for _, t := range tuples {
+			for _, v := range vals {
+				nt = append(nt, append(append([]int{}, t...), v))
+			}
+		}
+		tuples = nt
+	}
+	var universe []updItem
+	for _, t := range tuples {
+		pv := []int{-1}
+		if payload >= 0 {
+			pv = []int{-1, 0}
+		}
+		for _, p := range pv {
+			it := make(updItem, s.N)
+			for i := range it {
+				it[i] = -1
+			}
+			for j, k := range s.Keys {
+				it[k.Idx] = t[j]
+			}
+			if payload >= 0 {
+				it[payload] = p
+			}
+			if s.Flag >= 0 {
+				it[s.Flag] = 1
+			}
+			universe = append(universe, it)
+			if s.Flag >= 0 && p == 0 && len(universe)%4 == 0 {
+				// a few items that refuse remote writes
+				it2 := append(updItem{}, it...)
+				it2[s.Flag] = 0
+				universe = append(universe, it2)
+			}
+		}
+	}
+	var lists []updList
+	lists = append(lists, nil)
+	for _, a := range universe {
+		lists = append(lists, updList{a})
+	}
+	for _, a := range universe {
+		for _, b := range universe {
+			lists = append(lists, updList{a, b})
+		}
+	}
+	// filter variants
+	type fv struct{ fp, fd updFilter }
+	none := updFilter{kind: 'N'}
+	variants := []fv{{none, none}, {updFilter{kind: 'E'}, none}}
+	var sels []updItem
+	for j, k := range s.SelKind {
+		if k == h.SelIgnored && len(sels) > 0 {
+			continue
+		}
+		for _, v := range []int{0, 1} {
+			sel := make(updItem, len(s.SelMap))
+			for x := range sel {
+				sel[x] = -1
+			}
+			sel[j] = v
+			if k == h.SelNever {
+				sel[j] = v + 1000
+			}
+			sels = append(sels, sel)
+		}
+		if len(sels) >= 4 {
+			break
+		}
+	}
+	var el updItem
+	if s.ElT != nil && payload >= 0 {
+		el = make(updItem, s.ElN)
+		for x := range el {
+			el[x] = -1
+		}
+		for j, i := range s.ElMap {
+			if i == payload {
+				el[j] = 0
+			}
+		}
+	}
+	for _, sel := range sels {
+		variants = append(variants, fv{updFilter{kind: 'F', sel: sel}, none}, fv{none, updFilter{kind: 'F', sel: sel}})
+	}
+	if el != nil {
+		variants = append(variants, fv{none, updFilter{kind: 'F', el: el}})
+		if len(sels) > 0 {
+			variants = append(variants, fv{none, updFilter{kind: 'F', sel: sels[0], el: el}}, fv{updFilter{kind: 'E'}, updFilter{kind: 'F', sel: sels[0], el: el}})
+		}
+	}
+	if len(sels) > 0 {
+		variants = append(variants, fv{updFilter{kind: 'E'}, updFilter{kind: 'F', sel: sels[0]}})
+		if len(sels) > 1 {
+			variants = append(variants, fv{updFilter{kind: 'F', sel: sels[1]}, updFilter{kind: 'F', sel: sels[0]}})
+		}
+	}
+	remotes := []int{0}
+	if s.Flag >= 0 {
+		remotes = []int{0, 1}
+	}
+	total = len(lists) * len(lists) * len(variants) * len(remotes)
+	stride := 1
+	if total > fullUpTo {
+		stride = (total + maxCases - 1) / maxCases
+		// a stride coprime to the inner loop sizes spreads the sample over all dimensions
+		for stride%2 == 0 || stride%3 == 0 || stride%5 == 0 || stride%7 == 0 {
+			stride++
+		}
+	}
+	n := 0
+	for _, old := range lists {
+		for _, nw := range lists {
+			for _, v := range variants {
+				for _, r := range remotes {
+					n++
+					if n%stride != 0 {
+						continue
+					}
+					ops = append(ops, fmt.Sprintf("case %s direct r=%d p=1 old=%s new=%s fp=%s fd=%s", s.Name, r, updListS(old), updListS(nw), updFilterS(v.fp), updFilterS(v.fd)))
+				}
+			}
+		}
+	}
+	return ops, total
+}
+
+var updRepresentative = []string{
+	"LoadControlLimitListDataType",                      // one numeric key, write flag, struct fields
+	"DeviceConfigurationKeyValueListDataType",           // one key, write flag last
+	"SetpointListDataType",                              // write flag in the middle, many struct fields
+	"ElectricalConnectionPermittedValueSetListDataType", // two keys, slice field
+	"ElectricalConnectionCharacteristicListDataType",    // three keys
+	"MeasurementListDataType",                           // numeric + string key
+	"NetworkManagementEntityDescriptionListDataType",    // struct key
+	"LoadControlEventListDataType",                      // key is the second field, selector with an ignored field
+	"TariffListDataType",                                // selector field naming a slice field (panics)
+	"HvacSystemFunctionListDataType",                    // selector with a slice-typed field only (ignored)
+	"SetpointDescriptionListDataType",                   // three keys, selector fields of other types, no elements
+	"NodeManagementDestinationListDataType",             // no identifier at all
 }
 
 // ---------------------------------------------------------------- the test
@@ -1680,9 +1849,7 @@ func TestUpdate(t *testing.T) {
 		g := updGen{rng, s}
 		for _, shape := range updShapesAll {
 			for i := 0; i < perShape; i++ {
-				if !w.runUpdOps([]string{g.caseOp(shape)}) {
-					break
-				}
+				w.runUpdOps([]string{g.caseOp(shape)})
 			}
 		}
 		for i := 0; i < perShape/4; i++ {
@@ -1730,6 +1897,73 @@ func TestUpdate(t *testing.T) {
 	}
 	w.teardown()
 
+	floors := func() {
+		// ---- generator floors and the input distribution. Floors guard against vacuous agreement; once the
+		// run has found a disagreement they say nothing (histories end at their first mismatch, which starves
+		// the later shapes) and must not turn the verdict into "machinery broken".
+		if r.MismatchN > 0 {
+			r.Info["floors"] = "not evaluated: the run found a model/implementation disagreement"
+			info := map[string]int{}
+			for k, n := range w.stats {
+				info[k] = n
+			}
+			r.Info["stats"] = info
+			return
+		}
+		total, okN, panN := 0, 0, 0
+		for k, n := range r.Dist {
+			total += n
+			if strings.HasSuffix(k, ":ok=1") {
+				okN += n
+			}
+			if strings.HasSuffix(k, ":panic") {
+				panN += n
+			}
+		}
+		r.Floor("updates that succeeded", okN, total, 0.5)
+		r.Floor("updates that changed the stored data", w.stats["changed"], total, 0.25)
+		local := 0
+		for k, n := range w.stats {
+			if strings.HasPrefix(k, "spec:") && k != "spec:idempotence-checked" {
+				local += n
+			}
+		}
+		r.Floor("local persisting updates the SPEC decides", w.stats["spec:decided"], local, 0.4)
+		r.Floor("decided updates checked for idempotence", w.stats["spec:idempotence-checked"], w.stats["spec:decided"], 0.8)
+		r.Floor("panics predicted by the model (at least some)", panN, total, 0.005)
+		for _, sh := range updShapesAll {
+			n := 0
+			for k, c := range r.Dist {
+				if strings.HasPrefix(k, sh+":") {
+					n += c
+				}
+			}
+			r.Floor("filter shape "+sh, n, total, 0.04)
+		}
+		info := map[string]int{}
+		for k, n := range w.stats {
+			info[k] = n
+		}
+		r.Info["stats"] = info
+	}
+	floors() // over the seeded random part only; the enumeration below has its own, fixed distribution
+	// ---- thorough: bounded exhaustive enumeration for representative shapes
+	if h.Tier() == "thorough" {
+		enum := map[string]string{}
+		for _, name := range updRepresentative {
+			s := w.shapes[name]
+			if s == nil || s.Scalar || len(s.Problems) > 0 {
+				enum[name] = "not present in this tree"
+				continue
+			}
+			ops, total := updEnumerate(s, 200000, 60000)
+			for _, op := range ops {
+				w.runUpdOps([]string{op})
+			}
+			enum[name] = fmt.Sprintf("%d of %d cases (lists of length <= 2, every filter variant)", len(ops), total)
+		}
+		r.Info["enumerated"] = enum
+	}
 	// ---- shrink unlisted witnesses and the first mismatch
 	if len(r.Mismatches) > 0 {
 		mm := r.Mismatches[0]
@@ -1768,43 +2002,11 @@ func TestUpdate(t *testing.T) {
 		})
 		r.ReplaceSpecFailOps(key, small)
 	}
-
-	// ---- generator floors and the input distribution
-	total, okN, panN := 0, 0, 0
-	for k, n := range r.Dist {
-		total += n
-		if strings.HasSuffix(k, ":ok=1") {
-			okN += n
-		}
-		if strings.HasSuffix(k, ":panic") {
-			panN += n
-		}
-	}
-	r.Floor("updates that succeeded", okN, total, 0.5)
-	r.Floor("updates that changed the stored data", w.stats["changed"], total, 0.25)
-	local := 0
+	all := map[string]int{}
 	for k, n := range w.stats {
-		if strings.HasPrefix(k, "spec:") && k != "spec:idempotence-checked" {
-			local += n
-		}
+		all[k] = n
 	}
-	r.Floor("local persisting updates the SPEC decides", w.stats["spec:decided"], local, 0.4)
-	r.Floor("decided updates checked for idempotence", w.stats["spec:idempotence-checked"], w.stats["spec:decided"], 0.8)
-	r.Floor("panics predicted by the model (at least some)", panN, total, 0.005)
-	for _, sh := range updShapesAll {
-		n := 0
-		for k, c := range r.Dist {
-			if strings.HasPrefix(k, sh+":") {
-				n += c
-			}
-		}
-		r.Floor("filter shape "+sh, n, total, 0.04)
-	}
-	info := map[string]int{}
-	for k, n := range w.stats {
-		info[k] = n
-	}
-	r.Info["stats"] = info
+	r.Info["stats_with_enumeration"] = all
 }
 
 // updJSONRoundTrips: can every field of the item type be decoded by value after a JSON round trip?
